@@ -619,7 +619,8 @@ pub fn corpus() -> Vec<KCase> {
     let mut c = kcase(b, "reverse-search-nopath-witness");
     c.bf_ok = false;
     v.push(c);
-    // a limit the forward search respects stops the reverse search: 0 -> 1 -> 2 and 3, 4, 5 -> 2, size limit 2
+    // a limit the forward search respects stops the reverse search: 0 -> 1 -> 2 and 3, 4, 5 -> 2, size limit 2:
+    // the query must fail with the explicit `terminated` error (C10, 7780888), not return the shortest route alone
     let mut b = base_case(vec![(0, 1, 1.0), (1, 2, 1.0), (3, 2, 1.0), (4, 2, 1.0), (5, 2, 1.0)], 6, 0, 2);
     b.term = Term::Size(2);
     v.push(kcase(b, "reverse-search-limit-witness"));
@@ -1802,22 +1803,6 @@ fn oracle_c10_ksp(ctx: &mut Ctx, idx: usize, kc: &KCase, ex: &KExec, unlimited: 
                     }
                 }
             }
-            // single-via after aa21347: a reverse search stopped by a limit no longer fails the query, the
-            // shortest route is returned alone (one tree); accepted when it IS the unlimited first route
-            if !kc.yen && r.trees.len() == 1 {
-                if let Outcome::Ok(ru) = unl {
-                    let same_first = match (r.routes.first(), ru.routes.first()) {
-                        (Some(a), Some(b2)) => route_out(a) == route_out(b2),
-                        (None, None) => true,
-                        (None, Some(_)) => effective_k(kc) == Some(0),
-                        _ => false,
-                    };
-                    if ru.trees.len() == 2 && r.routes.len() <= 1 && same_first {
-                        ctx.count("ksp_reverse_search_limited_shortest_route_alone");
-                        return;
-                    }
-                }
-            }
             ctx.fail(idx, "limit/result-differs-from-unlimited", format!("k-shortest-paths ({}) limited: {} unlimited: {}", if kc.yen { "yen" } else { "single-via" }, short(&lim_line), short(&unl_line)));
         }
         Outcome::Err(k) if k.starts_with("terminated") => {
@@ -1974,6 +1959,24 @@ fn run_single_via(ctx: &mut Ctx, idx: usize, kc: &KCase) {
                     }
                 }
             }
+            // the shortest route alone (one tree) is the answer to a FAILED reverse search; it must not be
+            // the answer to a reverse search stopped by a limit
+            if r.trees.len() == 1 && !c.edge_oriented && inner_target(c).is_some() && inner_target(c) != Some(c.source) {
+                let mut rc = c.clone();
+                rc.reverse = true;
+                rc.source = c.target.unwrap();
+                rc.target = Some(c.source);
+                let rev = exec(&rc, &b);
+                if let Outcome::Err(rk) = &rev.outcome {
+                    ctx.count("reverse_search_failed_shortest_route_alone");
+                    if rk.starts_with("terminated") {
+                        ctx.fail(idx, "ksp/single-via-reverse-limit-shortened-answer", format!("the reverse search is stopped by a limit ('{}') but single-via returned the shortest route alone instead of that error", rk));
+                    }
+                }
+            }
+            if kc.label == "reverse-search-limit-witness" {
+                ctx.fail(idx, "ksp/single-via-reverse-limit-shortened-answer", "the reverse search exceeds the solution size limit but the query returned Ok".into());
+            }
             if matches!(plain.outcome, Outcome::Err(_)) && inner_target(c).is_some() && !r.routes.is_empty() {
                 if let Outcome::Err(pk) = &plain.outcome {
                     if pk == "nopath" {
@@ -1987,8 +1990,12 @@ fn run_single_via(ctx: &mut Ctx, idx: usize, kc: &KCase) {
             if k.starts_with("panic") && !k.contains("termination-frequency-zero") {
                 ctx.fail(idx, "ksp/panic", k.clone());
             }
-            // an answerable query must not become an error
-            if let (Outcome::Ok(_), Some(_)) = (&plain.outcome, k_eff) {
+            if kc.label == "reverse-search-limit-witness" && k != "terminated size" {
+                ctx.fail(idx, "ksp/single-via-reverse-limit-shortened-answer", format!("expected the explicit 'terminated size' error, got '{}'", k));
+            }
+            // an answerable query must not become an error — except that a limit hit by any sub-search
+            // is the explicit `terminated` error (C10, 7780888)
+            if let (Outcome::Ok(_), Some(_), false) = (&plain.outcome, k_eff, k.starts_with("terminated")) {
                 if inner_target(c).is_some() {
                     let stage = if ex.runs >= 2 && ex.pops.is_empty() { "reverse-search" } else if !ex.pops.is_empty() { "alternative" } else { "first-search" };
                     ctx.fail(
